@@ -5,12 +5,12 @@ from oracle_util import *  # noqa
 from protocol import from_real
 
 ID = "C07"
-LEAN_MODULE = "SCoda.Props.C07"
+LEAN_MODULE = ["SCoda.Props.C07", "SCoda.Props.Gaps"]
 LEVEL = "proof"
 CLAUSES = [
     ("output is well-formed for every input (alternation, starts with on, ends with off)", ["SCoda.C07.wf_out"]),
     ("no time/key signature repeats the one in force, and every signature that changes the one in force is kept",
-     ["SCoda.C07.no_repeat_ts", "SCoda.C07.no_repeat_ks", "SCoda.C07.ts_in_force"]),
+     ["SCoda.C07.no_repeat_ts", "SCoda.C07.no_repeat_ks", "SCoda.C07.ts_in_force", "SCoda.Gaps.ks_in_force"]),
     ("total duration unchanged; output is a legal relative view with positive waits", ["SCoda.C07.duration_eq", "SCoda.C07.ok_out"]),
     ("sounding set unchanged on paired input (overlaps fused); every kept event is an input event at its original tick; other events all kept",
      ["SCoda.C07.sound_eq", "SCoda.C07.events_sublist", "SCoda.C07.others_kept"]),
